@@ -91,6 +91,10 @@ package announce
 //@   ensures-local !allowed ==> result != nil && count("call:update") == 0 && count("lock:announceMutex") == 0
 //@   ensures-local allowed && old(r.closed) ==> result == ErrClosed && count("call:update") == 0
 //@   ensures-local result == nil ==> count("call:update") == 1
+// every allowed announcement that reaches an open receiver goes through update exactly once - a duplicate
+// too: that is what refreshes the recency of its entry (a look-up that leaves the order alone would let a
+// CID that keeps being re-announced age out and be delivered again)
+//@   ensures-local allowed && !old(r.closed) ==> count("call:update") == 1
 //@   ensures old(r.closed) ==> result != nil
 // the duplicate filter is keyed by the CID's string form - the same key UncacheCid removes
 //@   ghost key := 0
